@@ -104,7 +104,37 @@ func (e *Engine) verifyFunc(fn *ssa.Function, c *Contract, sweep bool) (u *Unit,
 			st.assume(u.typeFacts(lt, t))
 		}
 	}
+	if c == nil && fn.Signature.Recv() != nil && len(fn.Params) > 0 {
+		// zero-annotation sweep: a method is analysed for non-nil receivers; the call sites of
+		// contract-less methods carry the matching obligation
+		if _, isPtr := fn.Params[0].Type().Underlying().(*types.Pointer); isPtr {
+			st.assume(not(eq(st.vals[fn.Params[0]], intLit(0))))
+			u.note("sweep: methods without contract are analysed for a non-nil receiver (checked at their call sites)")
+		}
+	}
 	u.initGhost(st)
+	{
+		// lock ghosts: an ordinary operation starts on a published object; a constructor owns its object
+		_, unpub := u.lockGhost(st)
+		if c != nil && c.Constructor {
+			st.assume(unpub)
+			st.assume(not(st.ghost["held"]))
+		} else {
+			st.assume(not(unpub))
+			// a public entry point is called from outside: its caller does not hold the cache mutex
+			mentions := false
+			if c != nil {
+				for _, r := range c.Requires {
+					if strings.Contains(r.Text, "held") || strings.Contains(r.Text, "excl") {
+						mentions = true
+					}
+				}
+			}
+			if fn.Parent() == nil && token.IsExported(fn.Name()) && !mentions {
+				st.assume(not(st.ghost["held"]))
+			}
+		}
+	}
 	u.entry = st.clone()
 	// preconditions
 	if c != nil {
